@@ -65,4 +65,12 @@ TEXT["C04"] = {
     "note": _TB + "The 128-bit fast paths of equals_all are exercised, not modelled; shard-internal elision is checked by C05's shard parser.",
     "technique": "Lean 4 invariant proof (key present iff non-fill) + differential histories with key listings after every operation",
 }
+TEXT["C17"] = {
+    "level": "Machine-checked proof that for every grid built from a configuration, compatible shape, in-bounds non-empty region and element size the byte ranges written through the per-chunk views of a "
+             "multi-chunk read are a permutation of [0, n*es) (every byte exactly once), that one view writes exactly the bytes of its region, and that the executable verdict `tiles` used on recorded maps "
+             "is equivalent to that multiset statement; on the real code hook H4 records every view write and every publish site (multi-chunk reads, sharding decode incl. nested, sharded partial decoder, "
+             "cached and sharded-extension reads) and every published buffer is judged by `tiles`.",
+    "note": _TB + "Partial: writes outside ArrayBytesFixedDisjointView (raw pointers, external codecs) are not observable by the model or the hook; memory safety itself is not proved.",
+    "technique": "Lean 4 tiling proof (permutation of byte ranges) + recorded write maps judged by a proved-equivalent executable predicate",
+}
 NOT_YET = {}
